@@ -1,5 +1,6 @@
 import MidoProofs.SrcTie.Vlq
 import MidoProofs.SrcTie.VlqRead
+import MidoProofs.SrcTie.FileRoundTrip
 import MidoProofs.SrcTie.Writer
 import MidoProofs.SrcTie.Reader
 import MidoProofs.SrcTie.Tracks
@@ -30,3 +31,5 @@ import MidoProofs.SrcTie.Tracks
 #print axioms Mido.src_read_file_header
 #print axioms Mido.src_load_loop
 #print axioms Mido.src_load
+#print axioms Mido.tracksFit_of_storable
+#print axioms Mido.src_save_load
